@@ -518,6 +518,11 @@ func evalUnder(v ssa.Value, bind map[ssa.Value]constant.Value, depth int) (const
 		for _, a := range x.Call.Args {
 			k, ok := evalUnder(a, bind, depth+1)
 			if !ok {
+				// a transparent helper whose body contains the bound values: read it in place — the one
+				// return whose guards all hold under the binding
+				if isHelperCall(x) == g && g.Signature.Results().Len() == 1 {
+					return evalHelperReturn(g, 0, bind, depth+1)
+				}
 				return nil, false
 			}
 			args = append(args, k)
@@ -531,4 +536,38 @@ func evalUnder(v ssa.Value, bind map[ssa.Value]constant.Value, depth int) (const
 		return k, ok
 	}
 	return nil, false
+}
+
+// evalHelperReturn: result idx of the return of g that is taken under the binding (every guard of that
+// return evaluates and holds; the guards of every other return evaluate and at least one fails).
+func evalHelperReturn(g *ssa.Function, idx int, bind map[ssa.Value]constant.Value, depth int) (constant.Value, bool) {
+	var taken *ssa.Return
+	for _, in := range instrsOf(g) {
+		r, ok := in.(*ssa.Return)
+		if !ok {
+			continue
+		}
+		feasible := true
+		for _, gd := range GuardsLocal(r) {
+			c, okc := evalUnder(gd.If.Cond, bind, depth+1)
+			if !okc || c.Kind() != constant.Bool {
+				return nil, false
+			}
+			if constant.BoolVal(c) != gd.Arm {
+				feasible = false
+				break
+			}
+		}
+		if !feasible {
+			continue
+		}
+		if taken != nil {
+			return nil, false
+		}
+		taken = r
+	}
+	if taken == nil || idx >= len(taken.Results) {
+		return nil, false
+	}
+	return evalUnder(retResult(taken, idx), bind, depth+1)
 }
